@@ -1151,6 +1151,143 @@ pub fn case_big(bytes: &[u8], ctx: &mut Ctx) -> CaseResult {
 }
 
 // ---------------------------------------------------------------------------
+// 9. sequences of decoded values on one thread. Decoding and the receiver
+// operations are functions of the bytes; an implementation that keeps any state
+// between calls (memoised quality strings, caches keyed by a part of the value)
+// can behave for every value taken alone and misbehave for a sequence. The
+// adversarial neighbour of a value is the one that agrees with it in everything
+// such a key could be made of: here the same version-2 proof of space (one of the
+// 7 repository vectors: same challenge, keys, plot index, strength) with its proof
+// one byte shorter / truncated / one byte longer, which makes it unusable. Orders bad→good→bad and
+// good→bad→good, inside every container type.
+
+struct SetProof<'a> {
+    vector: &'a vstream::vectors::PosVector,
+    seed: u64,
+    spoil: Option<(usize, u8)>,
+    n: u64,
+}
+
+impl Walker for SetProof<'_> {
+    fn pos(&mut self, p: &mut chia_protocol::ProofOfSpace) {
+        let ch: [u8; 32] = if self.seed == 0 { self.vector.challenge } else { vstream::gen::expand(self.seed.wrapping_add(self.n), 32).try_into().unwrap() };
+        self.n += 1;
+        let mut v = self.vector.clone_with_proof(None);
+        if let Some((at, x)) = self.spoil {
+            // (changing proof BYTES still yields a quality string: the routine is no
+            // full validator. Changing the proof's LENGTH does not.)
+            let mut proof = self.vector.proof.clone();
+            match x % 3 {
+                0 => {
+                    proof.pop();
+                }
+                1 => proof.truncate(at % proof.len()),
+                _ => proof.push(x),
+            }
+            v = self.vector.clone_with_proof(Some(proof));
+        }
+        *p = v.make(chia_protocol::Bytes32::new(ch));
+    }
+}
+
+fn pos_containers() -> &'static Vec<usize> {
+    static C: OnceLock<Vec<usize>> = OnceLock::new();
+    C.get_or_init(|| {
+        struct Count(usize);
+        impl Walker for Count {
+            fn pos(&mut self, _p: &mut chia_protocol::ProofOfSpace) {
+                self.0 += 1;
+            }
+        }
+        let mut out = vec![];
+        for (i, e) in registry().iter().enumerate() {
+            if !e.has_fix {
+                continue;
+            }
+            for seed in 1..=6u64 {
+                let bytes = vstream::gen::expand(seed, 1500);
+                let mut v = (e.generate)(&mut Src::new(&bytes));
+                let mut c = Count(0);
+                v.walk(&mut c);
+                if c.0 > 0 {
+                    out.push(i);
+                    break;
+                }
+            }
+            let _ = take_gen_labels();
+        }
+        out
+    })
+}
+
+fn enum_sequences(tier: Tier, shard: usize, n: usize, emit: &mut dyn FnMut(&[u8]) -> bool) {
+    let seeds: u8 = if tier == Tier::Thorough { 24 } else { 3 };
+    let mut idx = 0usize;
+    for vi in 0..vstream::vectors::vectors().len() as u8 {
+        for ci in 0..pos_containers().len() as u8 {
+            for seed in 0..seeds {
+                let mine = idx % n == shard;
+                idx += 1;
+                if mine && !emit(&[vi, ci, seed]) {
+                    return;
+                }
+            }
+        }
+    }
+}
+
+/// bytes = [vector index, container index, seed]
+pub fn case_sequences(bytes: &[u8], ctx: &mut Ctx) -> CaseResult {
+    ensure_hook();
+    let mut s = Src::new(bytes);
+    let (vi, ci, seed) = (s.u8() as usize, s.u8() as usize, u64::from(s.u8()));
+    let vs = vstream::vectors::vectors();
+    let cs = pos_containers();
+    if vs.is_empty() || cs.is_empty() {
+        ctx.discard();
+        return Ok(());
+    }
+    let vector = &vs[vi % vs.len()];
+    let e = &registry()[cs[ci % cs.len()]];
+    let choice = vstream::gen::expand(0x5eed_1400 + seed * 131 + ci as u64, 1400);
+    let mut good = (e.generate)(&mut Src::new(&choice));
+    let _ = take_gen_labels();
+    let mut bad = good.clone_dyn();
+    let mut f = SetProof { vector, seed: seed + 1, spoil: None, n: 0 };
+    good.walk(&mut f);
+    if f.n == 0 {
+        ctx.label("sequence:no-proof-embedded");
+        return Ok(());
+    }
+    let mut g = SetProof { vector, seed: seed + 1, spoil: Some((seed as usize * 37 + vi, (seed as u8).wrapping_mul(29))), n: 0 };
+    bad.walk(&mut g);
+    let (Ok(enc_good), Ok(enc_bad)) = (good.to_bytes(), bad.to_bytes()) else {
+        ctx.label("sequence:does-not-encode");
+        return Ok(());
+    };
+    assert_ne!(enc_good, enc_bad, "spoiled proof changes the encoding");
+    let order: [&[u8]; 6] = if seed % 2 == 0 {
+        [&enc_bad, &enc_good, &enc_bad, &enc_good, &enc_good, &enc_bad]
+    } else {
+        [&enc_good, &enc_bad, &enc_good, &enc_bad, &enc_bad, &enc_good]
+    };
+    for input in order {
+        let o = probe(e, input, ctx)?;
+        if !(o.ok_untrusted && o.ok_trusted) {
+            ctx.label("sequence:a-version-rejected");
+        }
+    }
+    ctx.add_inner(6);
+    ctx.label(format!("sequence:{}", vector.name));
+    ctx.label(format!("sequence-container:{}", e.name));
+    let mut fp2 = Fnv::new();
+    fp2.write(e.name.as_bytes()).write(&enc_good).write(&enc_bad);
+    ctx.nontrivial(fp2.finish());
+    ctx.render(|| format!("{} with vector {} ({} proofs): good encoding {} / proof length changed {}", e.name, vector.name, f.n, hx(&enc_good), hx(&enc_bad)));
+    Ok(())
+}
+
+// ---------------------------------------------------------------------------
 
 pub fn run_main() {
     let prop = Property {
@@ -1251,6 +1388,15 @@ pub fn run_main() {
                     "big:RespondToPhUpdates.coin_states",
                     "big:Vec<G1Element>",
                 ],
+            },
+            SubCheck {
+                name: "v2-proof-sequences",
+                about: "on one thread: a container holding a valid version-2 proof of space (the 7 vectors) and the same container with the proof's length changed (unusable proof), decoded and used alternately (bad, good, bad, good, good, bad and the mirror image); a hash() panic that does not occur on a fresh thread is a violation",
+                source: Source::Enumerate { f: enum_sequences, exhaustive: false },
+                run: case_sequences,
+                inflight: true,
+                min_nontrivial: 100,
+                required_labels: &["sequence:pool-2-0-0", "sequence:contract-3-0-0", "sequence-container:FullBlock"],
             },
         ],
     };
